@@ -179,6 +179,9 @@ type c15Case struct {
 	tag   string
 	// configure through the package-level wrappers acting on the default client
 	global bool
+	// 0: the client's own Debugf (a closure that is silent unless DebugLog is on), 1: a live debug
+	// function (every message is formatted), 2: no debug function at all (a bare Transport)
+	debug int
 }
 
 type c15Res struct {
@@ -252,6 +255,12 @@ func c15Run(cs *c15Case) c15Res {
 		defer restore()
 	} else {
 		tr = c15Apply(C(), &cs.st, cs.ct)
+	}
+	switch cs.debug {
+	case 1:
+		tr.Debugf = func(format string, v ...interface{}) { _ = fmt.Sprintf(format, v...) }
+	case 2:
+		tr.Debugf = nil
 	}
 	src := newC15Src(cs.segs, cs.term, cs.lwt)
 	var body io.ReadCloser
@@ -579,6 +588,8 @@ func c15GenValid(r *rand.Rand, count func(string)) *c15Case {
 	if c.global {
 		count("settings-via-global-wrappers")
 	}
+	c.debug = verifh.Pick(r, []int{0, 0, 0, 0, 1, 2})
+	count(fmt.Sprintf("debugf:%d", c.debug))
 	// content type
 	ct := verifh.Pick(r, c15ContentTypes)
 	hdrLabel := ""
@@ -819,7 +830,7 @@ func TestVerif_C15_read(t *testing.T) {
 		"site:conflict-header", "site:decoy", "kind:mb", "kind:sb", "kind:u16le", "kind:u16be", "kind:utf8", "kind:utf8bom",
 		"impl-kind:raw", "impl-kind:hdr", "impl-kind:auto", "sniff:found", "sniff:nothing", "impl-term:eof", "impl-term:err",
 		"malformed:random-bytes", "malformed:mutated", "malformed:soup", "segmode:3", "segmode:4",
-		"first-read>4096-sniffed", "settings-via-global-wrappers", "settings-program", "prog:request-by-a-clone", "prog:cloned-while-switched-off", "prog:cloned-with-filter-set",
+		"first-read>4096-sniffed", "debugf:1", "debugf:2", "settings-via-global-wrappers", "settings-program", "prog:request-by-a-clone", "prog:cloned-while-switched-off", "prog:cloned-with-filter-set",
 		"prog:cloned-off-with-filter-then-switched-on", "prog:several-clones", "decoder:hdr-w1252", "decoder:hdr-u16le", "decoder:hdr-tbl", "decoder:sniff-w1252", "decoder:sniff-u16le", "decoder:sniff-u16be", "decoder:sniff-tbl"} {
 		if cnt[must] == 0 {
 			t.Errorf("generator never reached bucket %q", must)
